@@ -14,7 +14,8 @@ from hypothesis import strategies as st
 import ebpfcat.devices as devices
 from ebpfcat.devices import Valve
 from ebpfcat.ebpfcat import (
-    EBPFTerminal, PacketDesc, SimpleEtherCat, SyncGroup, SyncManager)
+    EBPFTerminal, PacketDesc, ProcessDesc, SimpleEtherCat, SyncGroup,
+    SyncManager)
 
 ID = "C27"
 LEVEL = "exploration"
@@ -44,6 +45,14 @@ class T(EBPFTerminal):
     coil = PacketDesc(SyncManager.OUT, 0, 0)
 
 
+class TP(EBPFTerminal):
+    """the same terminal, its variables declared as bits of mapped bytes (the
+    way the library's TurboVac declares pump_on / pump_is_on)"""
+    open_sw = ProcessDesc(0x6000, 1, 0)
+    closed_sw = ProcessDesc(0x6000, 1, 1)
+    coil = ProcessDesc(0x7000, 1, 0)
+
+
 def strategy(tier):
     mt = st.shared(st.sampled_from([4, 40, 480]), key="mt")   # ticks
     safe = st.shared(st.booleans(), key="safe")
@@ -67,7 +76,8 @@ def strategy(tier):
     return st.tuples(mt, safe).flatmap(
         lambda ms: st.fixed_dictionaries({
             "moving_ticks": st.just(ms[0]), "safe_state": st.just(ms[1]),
-            "ops": ops(*ms)}))
+            "ops": ops(*ms),
+            "decl": st.sampled_from(["packet", "process"])}))
 
 
 class Clock:
@@ -89,7 +99,12 @@ def run_case(case):
 
 def _run(case, clock):
     ec = SimpleEtherCat("verif")
-    term = T(ec)
+    if case.get("decl") == "process":
+        term = TP(ec)
+        term.pdos = {(0x6000, 1): (SyncManager.IN, 0, "B"),
+                     (0x7000, 1): (SyncManager.OUT, 0, "B")}
+    else:
+        term = T(ec)
     term.position = 9
     term.pdo_in_sz = 1
     term.pdo_out_sz = 1
@@ -191,7 +206,9 @@ def _run(case, clock):
     nontrivial = any(b.startswith(("moving", "timeout")) for b in branches)
     return dict(ok=True, nontrivial=nontrivial,
                 key=repr((case["moving_ticks"], safe, branches)),
-                classes=sorted(set(branches)) + [f"safe={safe}"] + (
+                classes=sorted(set(branches)) + [f"safe={safe}",
+                                                 "decl=" + case.get(
+                                                     "decl", "packet")] + (
                     ["second-sync-group"] if regrouped else []),
                 summary=trace[-6:])
 
